@@ -97,6 +97,9 @@ Clauses(r) ==
         => r.final_mask = ExpectedMask(r.seg, r.segreq, r.xr, r.req_lo,
                                        r.req_hi, r.req_zero),
   C05_XminXmax       |-> r.success => r.xminmax_ok,
+  \* the E(depth) scan, asked for again with another sample count, has the
+  \* number of samples asked for
+  C05_RescanSampleCount |-> r.rescan_ok,
   \* ------------------------------------------------------------- C11
   C11_InitCpInMeasuredUnits |->
       \A i \in 1..np : r.passes[i].cp_exp \in {1, 99},
